@@ -75,7 +75,14 @@ struct world : sim::configuration
 				c.out_cap = int(geti(a, "out_cap")); c.in_cap = int(geti(a, "in_cap"));
 				c.out_bw = int(geti(a, "out_bw")); c.in_bw = int(geti(a, "in_bw"));
 				add_addr(c);
-				if (!c.nat.empty() && !real2sym.count(real_of(c.nat))) real2sym[real_of(c.nat)] = c.nat;
+				for (std::size_t b = 0; b < c.nat.size();)
+				{
+					std::size_t plus = c.nat.find('+', b);
+					std::string one = c.nat.substr(b, plus == std::string::npos ? std::string::npos : plus - b);
+					if (!one.empty() && !real2sym.count(real_of(one))) real2sym[real_of(one)] = one;
+					if (plus == std::string::npos) break;
+					b = plus + 1;
+				}
 			}
 		if (t.find("mtu") != t.end())
 			for (auto const& mv : t.at("mtu").as_array())
@@ -140,10 +147,16 @@ struct world : sim::configuration
 		auto it = addrs.find(s);
 		if (it == addrs.end()) return r;
 		r.append(probe("out:" + s));
-		if (!it->second.nat.empty())
+		// "X1+X3" = a NAT behind another NAT (the outermost comes last)
+		std::string chain = it->second.nat;
+		while (!chain.empty())
 		{
-			std::string n = "nat:" + it->second.nat;
-			if (!hops.count(n)) hops[n] = std::make_shared<sim::nat>(asio::ip::make_address(real_of(it->second.nat)));
+			std::size_t plus = chain.find('+');
+			std::string one = chain.substr(0, plus);
+			chain = plus == std::string::npos ? std::string() : chain.substr(plus + 1);
+			std::string n = "nat:" + one;
+			if (!hops.count(n)) hops[n] = std::make_shared<sim::nat>(asio::ip::make_address(real_of(one)));
+			if (!real2sym.count(real_of(one))) real2sym[real_of(one)] = one;
 			r.append(hops[n]);
 		}
 		r.append(queue("out:" + s, it->second.out_bw, it->second.out_lat, it->second.out_cap));
